@@ -4,7 +4,7 @@ residuals (f, g) at the operating point after TDS.init, for stock cases, before 
 connectivity check that patches islanded buses) and after altering a machine damping and an exciter gain (parameters that enter only
 Jacobian blocks without variable arguments).  Entries whose finite difference straddles a limiter breakpoint are not compared.
 """
-CASES = ['kundur/kundur_full.xlsx', 'ieee14/ieee14_full.xlsx']
+CASES = ['kundur/kundur_full.xlsx', 'ieee14/ieee14_full.xlsx', 'mixed:kundur']
 
 
 def fd_check(ss, label):
@@ -75,7 +75,7 @@ def run():
     total = 0
     for case in CASES:
         with contextlib.redirect_stdout(io.StringIO()), contextlib.redirect_stderr(io.StringIO()):
-            ss = andes.load(andes.get_case(case), default_config=True, no_output=True)
+            ss = andes.load(__import__('contracts.mixed_case', fromlist=['resolve']).resolve(case), default_config=True, no_output=True)
             ss.PFlow.run()
             ss.TDS.init()
             k, bad = fd_check(ss, case + ' after TDS.init')
